@@ -184,7 +184,7 @@ def gen_c16_item(r: random.Random, idx: int):
         return attrs
 
     # generics
-    gen_kind = r.choice(["", "", "", "", "T", "TU", "life", "const", "bounded", "where", "default", "constdef", "constonly", "life2", "default2"])
+    gen_kind = r.choice(["", "", "", "", "T", "TU", "life", "const", "bounded", "where", "default", "constdef", "constonly", "life2", "default2", "constwhere"])
     tparams = []
     if gen_kind == "T":
         it.generics, tparams = "<T>", ["T"]
@@ -204,6 +204,9 @@ def gen_c16_item(r: random.Random, idx: int):
         it.generics, tparams = "<T, const N: usize = 2>", ["T"]
     elif gen_kind == "constonly":
         it.generics, tparams = r.choice(["<const N: usize>", "<const N: usize = 3, const B: bool = true>"]), []
+    elif gen_kind == "constwhere":
+        # no type parameters, but a where clause the type cannot be named without
+        it.generics, tparams, it.where = "<const N: usize>", [], " where [u8; N]: Default"
     elif gen_kind == "life2":
         it.generics, tparams = "<'a, 'b: 'a, T: 'a>", ["T"]
     elif gen_kind == "default2":
@@ -230,7 +233,7 @@ def gen_c16_item(r: random.Random, idx: int):
             ts += ["&'a str", "std::borrow::Cow<'a, str>"]
         if gen_kind == "life2":
             ts += ["&'b str", "&'a &'b str"]
-        if gen_kind in ("const", "constdef", "constonly"):
+        if gen_kind in ("const", "constdef", "constonly", "constwhere"):
             ts += ["[i32; N]", "[Option<String>; N]"]
         return r.choice(ts)
 
@@ -427,7 +430,10 @@ def c10_groups(r: random.Random, n_groups: int):
         base = fill(tmpl, slot, "")
         # spelling
         groups.append({"kind": "spelling", "level": level, "key": key, "unknown_class": None,
-                       "members": [("ts", fill(tmpl, slot, f"#[ts({a})]")), ("serde", fill(tmpl, slot, f"#[serde({a})]"))],
+                       "members": [("ts", fill(tmpl, slot, f"#[ts({a})]")), ("serde", fill(tmpl, slot, f"#[serde({a})]")),
+                                   # a list may end in a comma, like every attribute list in Rust
+                                   ("serde-trailing-comma", fill(tmpl, slot, f"#[serde({a},)]")),
+                                   ("ts-trailing-comma", fill(tmpl, slot, f"#[ts({a}, )]"))],
                        "plain": base})
         # precedence
         if b is not None:
@@ -449,6 +455,7 @@ def c10_groups(r: random.Random, n_groups: int):
         split = " ".join(f"#[serde({k})]" for k in keys)
         groups.append({"kind": "list-shape", "level": level, "key": "+".join(k.split(" ")[0] for k in keys), "unknown_class": None,
                        "members": [("one-list", fill(tmpl, slot, f"#[serde({joined})]")),
+                                   ("one-list-trailing-comma", fill(tmpl, slot, f"#[serde({joined},)]")),
                                    ("reversed", fill(tmpl, slot, f"#[serde({rev})]")),
                                    ("split", fill(tmpl, slot, split)),
                                    ("ts-list", fill(tmpl, slot, f"#[ts({', '.join(k for k in keys if k != 'default')})]"))],
